@@ -228,3 +228,81 @@ func runSubScenario(c *Ctx, name, what, law string) {
 	}
 	c.Fail("spec", name, name, what, trunc(msg, 600), "SCENARIO-OK", law)
 }
+
+// a listener that delivers one datagram, waits for a signal and then fails for good (not a shutdown)
+type failingConn struct {
+	reads    int32
+	datagram []byte
+	fail     chan struct{}
+}
+
+func (c *failingConn) ReadFrom(p []byte) (int, net.Addr, error) {
+	if atomic.AddInt32(&c.reads, 1) == 1 {
+		return copy(p, c.datagram), &net.UDPAddr{IP: net.IPv4(10, 0, 0, 1), Port: 1000}, nil
+	}
+	<-c.fail
+	return 0, nil, &net.OpError{Op: "read", Net: "udp", Err: fmt.Errorf("permanent failure")}
+}
+func (c *failingConn) WriteTo(p []byte, addr net.Addr) (int, error) { return len(p), nil }
+func (c *failingConn) Close() error                                 { return nil }
+func (c *failingConn) LocalAddr() net.Addr {
+	return &net.UDPAddr{IP: net.IPv4(127, 0, 0, 1), Port: 1812}
+}
+func (c *failingConn) SetDeadline(time.Time) error      { return nil }
+func (c *failingConn) SetReadDeadline(time.Time) error  { return nil }
+func (c *failingConn) SetWriteDeadline(time.Time) error { return nil }
+
+// Schedule: a handler is running and waits for its request context; the only Serve call ends on a permanent read
+// error (no listener is registered any more); Shutdown. Shutdown must still cancel the request contexts, wait for
+// the handler and return nil.
+func scenarioServeEndedOnReadError() (bool, string) {
+	secret := []byte("s3cr3t")
+	started := make(chan struct{})
+	var cancelled, finished int32
+	srv := &radius.PacketServer{
+		ErrorLog:     log.New(io.Discard, "", 0),
+		SecretSource: radius.StaticSecretSource(secret),
+		Handler: radius.HandlerFunc(func(w radius.ResponseWriter, r *radius.Request) {
+			close(started)
+			select {
+			case <-r.Context().Done():
+				atomic.StoreInt32(&cancelled, 1)
+			case <-time.After(3 * time.Second):
+			}
+			atomic.StoreInt32(&finished, 1)
+		}),
+	}
+	b, _ := radius.New(radius.CodeAccessRequest, secret).Encode()
+	conn := &failingConn{datagram: b, fail: make(chan struct{})}
+	serveErr := make(chan error, 1)
+	go func() { serveErr <- srv.Serve(conn) }()
+	select {
+	case <-started:
+	case <-time.After(3 * time.Second):
+		return false, "handler never started"
+	}
+	close(conn.fail)
+	var err error
+	select {
+	case err = <-serveErr:
+	case <-time.After(3 * time.Second):
+		return false, "Serve did not return after a permanent read error"
+	}
+	if err == nil || err == radius.ErrServerShutdown {
+		return false, fmt.Sprintf("Serve = %v, want the read error", err)
+	}
+	ctx, cancel := context.WithTimeout(context.Background(), 1500*time.Millisecond)
+	defer cancel()
+	sdErr := srv.Shutdown(ctx)
+	ca, fi := atomic.LoadInt32(&cancelled), atomic.LoadInt32(&finished)
+	if sdErr != nil || ca != 1 || fi != 1 {
+		return false, fmt.Sprintf("after the only Serve call ended on a read error with a handler still waiting for its context: Shutdown = %v, request context cancelled = %d, handler finished = %d; want nil, 1, 1", sdErr, ca, fi)
+	}
+	// a later Serve returns ErrServerShutdown
+	if err := srv.Serve(&failingConn{datagram: b, fail: make(chan struct{})}); err != radius.ErrServerShutdown {
+		return false, fmt.Sprintf("Serve after Shutdown = %v, want ErrServerShutdown", err)
+	}
+	return true, ""
+}
+
+func init() { scenarios["c07-serve-ended-on-read-error"] = scenarioServeEndedOnReadError }
